@@ -6,7 +6,7 @@ for t in "$dir/out/$n"/*_test.go; do
   pk=$(grep -m1 '^package ' "$t" | awk '{print $2}')
   case "$pk" in
     gorums|gorums_test) dst=. ;;
-    gengorums) dst=cmd/protoc-gen-gorums/gengorums ;;
+    gengorums|gengorums_test) dst=cmd/protoc-gen-gorums/gengorums ;;
     dev|dev_test) dst=cmd/protoc-gen-gorums/dev ;;
     *_test) d=${pk%_test}; dst=$(cd /repo && ls -d tests/$d 2>/dev/null || echo benchmark) ;;
     *) dst=$(cd /repo && ls -d tests/$pk 2>/dev/null || echo .) ;;
